@@ -151,6 +151,35 @@ func pureHandle(line string) string {
 		p := wf.NewProc(f[1], pat)
 		t := sp.VerifNewTask(p, ins, nil, params, tags)
 		return t.OutIPs[f[2]].Path()
+	case "defpath2":
+		// like defpath, for a process with several out-ports (f[2] = "port:ext,port:ext,..."): all default paths
+		ins, params, tags := pkvs(f[4]), pkvs(f[5]), pkvs(f[6])
+		pat := "cmd"
+		for _, k := range sortedKeys(ins) {
+			pat += " {i:" + k + "}"
+		}
+		for _, k := range sortedKeys(params) {
+			pat += " {p:" + k + "}"
+		}
+		ports := []string{}
+		for _, pe := range strings.Split(f[2], ",") {
+			kv := strings.SplitN(pe, ":", 2)
+			ports = append(ports, kv[0])
+			ext := ""
+			if len(kv) == 2 && kv[1] != "" {
+				ext = "|." + kv[1]
+			}
+			pat += " {o:" + kv[0] + ext + "}"
+		}
+		wf := sp.VerifNewWorkflowQuiet(fmt.Sprintf("d%d", workerN), 4)
+		workerN++
+		p := wf.NewProc(f[1], pat)
+		t := sp.VerifNewTask(p, ins, nil, params, tags)
+		out := []string{}
+		for _, pn := range ports {
+			out = append(out, t.OutIPs[pn].Path())
+		}
+		return strings.Join(out, US)
 	case "tmpdir":
 		ins, subs, params, tags := pkvs(f[2]), pkvl(f[3]), pkvs(f[4]), pkvs(f[5])
 		pat := "cmd"
